@@ -79,10 +79,17 @@ def kill_ladder(chk: Check) -> None:
     # outcomes of the early returns: already KILLED -> True; terminated otherwise -> False; pending kill -> that same object
     cfg = ff.cfg
     rets = [n for n in cfg.nodes if n.kind == 'return']
-    shapes = {}
+    class _Shapes(list):   # every return with the facts that hold there (several returns may hand back the same expression)
+        def items(self):
+            return list(self)
+    shapes = _Shapes()
     for r in rets:
         fs = ff.at(r)
-        shapes[norm(r.ast.value)] = fs
+        v_ = r.ast.value
+        txt_ = norm(v_)
+        if isinstance(v_, ast.Name):   # a local that stands for the pending action (``pending = self._killing`` ; ``if pending: return pending``)
+            txt_ = ff.canon.key(v_)
+        shapes.append((txt_, fs))
     ok_true = any(('eq', 'self._state.LABEL', 'ProcessState.KILLED') in fs for v, fs in shapes.items() if v == 'True')
     chk.ob('GUARD-kill-ladder', kill, ok_true, 'kill() on an already KILLED process returns True', kind='return:already-killed')
     ok_false = any(('T', 'self._state.is_terminal()') in fs for v, fs in shapes.items() if v == 'False')
@@ -223,7 +230,9 @@ def end_of_step_dispatch(chk: Check) -> None:
         fs = ff.at(r)
         chk.ob('DOM-end-of-step', step, not_none(fs, IA), 'the interrupt action is run only when one is set', node=r.ast, kind='run-iff-set')
         call = [c for c in _calls(r) if norm(c.func) == f'{IA}.run'][0]
-        chk.ob('DOM-end-of-step', step, [norm(a) for a in call.args] == ['next_state'], 'the action receives the step\'s next state '
+        # (the variable that received what the state's execute returned, whatever it is called)
+        nvars = {norm(ex.ast.targets[0])} if isinstance(ex.ast, ast.Assign) and len(ex.ast.targets) == 1 and isinstance(ex.ast.targets[0], ast.Name) else {'next_state'}
+        chk.ob('DOM-end-of-step', step, len(call.args) == 1 and norm(call.args[0]) in nvars, 'the action receives the step\'s next state '
                '(a pause must not lose the step)', node=r.ast, kind='run-gets-next-state')
     for t in trans:
         fs = ff.at(t)
@@ -238,6 +247,26 @@ def end_of_step_dispatch(chk: Check) -> None:
 
     # (the "terminated meanwhile" way out: a return, or the empty branch an inlined helper's early return becomes -- any node that knows the process is terminal)
     ok = cfg.must_pass(ex, [cfg.exit], lambda n: dispatch(n) or terminated_return(n) or ('T', 'self._state.is_terminal()') in ff.at(n), edge_ok=no_exc)
+    if not ok:
+        # the same path by path: the dispatch, or a branch taken BECAUSE the process is terminal (``if not terminated: <dispatch>`` with nothing in the else)
+        from ..decisions import paths_under as _pu_d
+        try:
+            ok = True
+            n_p = 0
+            for path in _pu_d(ff, {}, start=ex):
+                if path[-1] is not cfg.exit:
+                    continue
+                n_p += 1
+                good = any(dispatch(m) or terminated_return(m) for m in path)
+                for i, m in enumerate(path[:-1]):
+                    if m.kind == 'test':
+                        lbl = next((l for t_, l in m.succ if t_ is path[i + 1] and l in ('true', 'false')), None)
+                        if lbl is not None and ('T', 'self._state.is_terminal()') in ff.cond_atoms(ff.subst_flags(m.ast.test, ff.at(m)), lbl == 'true'):
+                            good = True
+                ok = ok and good
+            ok = ok and n_p > 0
+        except RuntimeError:
+            ok = False
     chk.ob('DOM-end-of-step', step, ok, 'every non-raising path from the step to the end of step() performs the dispatch '
            '(or returns because the process terminated meanwhile)', kind='dispatch-on-all-paths')
     # at most one dispatch per path: from a dispatch node no other dispatch node is reachable
@@ -399,7 +428,37 @@ def _followed_by_terminal_transition(chk, f, cfg, ff, n, call) -> bool:
         # (a return, or the empty branch an inlined helper's early return becomes: a node that knows the process is terminal)
         return ('T', 'self._state.is_terminal()') in ff.at(m)
 
-    return cfg.must_pass(n, [cfg.exit], lambda m: enters(m) or terminated_return(m), edge_ok=no_exc)
+    if cfg.must_pass(n, [cfg.exit], lambda m: enters(m) or terminated_return(m), edge_ok=no_exc):
+        return True
+    # the same along every path, with the locals the state travels through spelled out (``excepted = <state>`` ; ``successor = excepted`` ; ``transition_to(successor)``)
+    from ..decisions import paths_under as _pu, value_on_path as _vop
+    want = norm(asg.value)
+    try:
+        paths = _pu(ff, {}, start=preds[0])
+    except RuntimeError:
+        return False
+    seen = 0
+    for path in paths:
+        if path[-1] is not cfg.exit:
+            continue
+        seen += 1
+        ok_path = False
+        for i, m in enumerate(path):
+            if i and terminated_return(m):
+                ok_path = True
+                break
+            if i and m.kind == 'test' and i + 1 < len(path):
+                lbl_ = next((l for t_, l in m.succ if t_ is path[i + 1] and l in ('true', 'false')), None)
+                if lbl_ is not None and ('T', 'self._state.is_terminal()') in ff.cond_atoms(ff.subst_flags(m.ast.test, ff.at(m)), lbl_ == 'true'):
+                    ok_path = True
+                    break
+            hit = [c for c in _calls(m) if (last_name(c) == 'transition_to' or norm(c.func) == f'{IA}.run') and c.args]
+            if i and hit:
+                ok_path = norm(_vop(path, i, hit[0].args[0])) == want
+                break
+        if not ok_path:
+            return False
+    return seen > 0
 
 
 # ---------------------------------------------------------------------- 5. interrupt delivery
